@@ -8,7 +8,9 @@
    PARSE_IS_RECURSIVE / OVERRUN_STOPS are regenerated from /repo by translator T12 on every run; every
    statement below is proved for both values, so this file compiles before and after the repair of the walk. *)
 From Coq Require Import ZArith Bool List Arith.
-From ExaV Require Import gen.Gen_ParseShape model.Model_Robust spec.Spec_Robust proofs.Proofs_Robust.
+From ExaV Require Import gen.Gen_ParseShape gen.Gen_AttrTable model.Model_Robust spec.Spec_Robust proofs.Proofs_Robust
+  model.Model_RobustInst proofs.Proofs_RobustInst.
+From ExaV Require model.Model_Update.
 Import ListNotations.
 Open Scope Z_scope.
 
@@ -119,3 +121,69 @@ Print Assumptions C03_only_defined_outcomes_refuted.
 Print Assumptions C03_advisory_crash.
 Print Assumptions C03_sections.
 Print Assumptions C03_linear_steps.
+
+(* ------------------------------------------------------------------ the value decoders that are modelled keep the contract.
+   capv_open = Model_Open.parse_cap (C07); vdec_full = Model_Update.unpack_value (C02/C08) for ORIGIN, AS_PATH, NEXT_HOP,
+   MED, LOCAL_PREF, ATOMIC_AGGREGATE, AGGREGATOR, COMMUNITY, ORIGINATOR_ID, CLUSTER_LIST, MP_REACH / MP_UNREACH framing,
+   EXTENDED_COMMUNITY (v4, v6), AS4_PATH, AS4_AGGREGATOR, LARGE_COMMUNITY, plus the AIGP walk of Model_RobustInst;
+   `opq` stands for the four decoders that remain opaque (PMSI 22, TUNNEL_ENCAP 23, BGP-LS 29, PREFIX_SID 40) *)
+
+Theorem C03_capability_decoders_keep_contract : capv_contract capv_open.
+Proof. exact capv_open_contract. Qed.
+
+(* OPEN, no hypothesis left: decoded, or refused with an RFC-defined code *)
+Theorem C03_open_only_defined_outcomes : forall b : bytes,
+  match dec_open capv_open b with
+  | Decoded _ => True
+  | Refused c s => rfc_defined c s = true
+  | PyError _ => False
+  end.
+Proof. exact open_defined_inst. Qed.
+
+(* EXTNH_PER_FAMILY (regenerated by T5): the tree widens the next hop lengths per <AFI, SAFI> of the extended next hop
+   capability; with the older rule MPRNLRI.unpack_attribute could raise KeyError and the statement is false *)
+Theorem C03_attribute_decoders_keep_contract : forall opq s aigp_on,
+  EXTNH_PER_FAMILY = true -> opq_contract opq -> vdec_contract (vdec_full opq s aigp_on).
+Proof. exact vdec_full_contract. Qed.
+
+Theorem C03_only_defined_outcomes_instantiated : forall opq s aigp_on addpath limit ty (b : bytes),
+  EXTNH_PER_FAMILY = true -> opq_contract opq -> enough_stack limit b ->
+  ~ refresh_unknown_subtype ty b -> advisory_decodable ty b ->
+  match dec_message (vdec_full opq s aigp_on) capv_open addpath limit ty b with
+  | Decoded _ => True
+  | Refused c s => rfc_defined c s = true
+  | PyError _ => False
+  end.
+Proof. exact message_defined_inst. Qed.
+
+Theorem C03_linear_steps_instantiated : forall vdec addpath ty (b : bytes), byte_list b ->
+  (message_steps vdec capv_open addpath ty b <= length b + 2)%nat.
+Proof. exact message_steps_inst. Qed.
+
+(* AIGP (RFC 7311): the TLV walk of AIGPBase.from_packet takes at most one step per three octets, never runs out of
+   fuel (more fuel than the length changes nothing), and an attribute repeating the AIGP TLV is accepted *)
+Theorem C03_aigp_walk_linear : forall d : bytes, (snd (aigp_walk d) <= length d / 3 + 1)%nat.
+Proof. exact aigp_walk_linear. Qed.
+
+Theorem C03_aigp_walk_terminates : forall f1 f2 found (d : bytes), (length d <= f1)%nat -> (length d <= f2)%nat ->
+  aigp_f f1 found d = aigp_f f2 found d.
+Proof. exact aigp_f_fuel. Qed.
+
+Theorem C03_aigp_repeated_tlv_accepted : forall (ms : list bytes) fuel found,
+  Forall (fun m => length m = 8%nat) ms -> (length (flat_map aigp_tlv ms) <= fuel)%nat ->
+  fst (aigp_f fuel found (flat_map aigp_tlv ms)) = Some (found || negb (Nat.eqb (length ms) 0)).
+Proof. exact aigp_repeated_ok. Qed.
+
+(* non-vacuity: the AIGP TLV twice, then an unknown TLV: accepted in three steps *)
+Example C03_aigp_example :
+  aigp_walk ([1; 0; 11; 0; 0; 0; 0; 0; 0; 0; 5] ++ [1; 0; 11; 0; 0; 0; 0; 0; 0; 0; 9] ++ [2; 0; 5; 170; 187]) = (Some true, 3%nat).
+Proof. vm_compute. reflexivity. Qed.
+
+Print Assumptions C03_capability_decoders_keep_contract.
+Print Assumptions C03_open_only_defined_outcomes.
+Print Assumptions C03_attribute_decoders_keep_contract.
+Print Assumptions C03_only_defined_outcomes_instantiated.
+Print Assumptions C03_linear_steps_instantiated.
+Print Assumptions C03_aigp_walk_linear.
+Print Assumptions C03_aigp_walk_terminates.
+Print Assumptions C03_aigp_repeated_tlv_accepted.
